@@ -1,6 +1,7 @@
 """File-system effect model (ghost trace) for the crash / write-only-on-change properties (C12, C13).
 
-The trace of file-system *write* effects is a pre-existing list object FS_TRACE (a fixed object id).  The modelled
+The trace of file-system *write* effects is a ghost list object FS_TRACE with a reserved object id (-1) that no
+program object can have (pre-existing objects have ids >= 0, allocations ids < -1), so no program list aliases it.  The modelled
 primitives append effect tuples to it:
 
     open(p, "w")            ("open_w", p)        the file is truncated (or created empty)
@@ -21,7 +22,7 @@ from .values import SV, Unsupported, NONE, mk_py, mk_str, mk_bool, mk_tup, mk_re
 
 S = z3.StringSort()
 B = z3.BoolSort()
-FS_TRACE = z3.Int("fs_trace_obj")
+FS_TRACE = z3.IntVal(-1)  # reserved object id: pre-existing program objects have ids >= 0, allocations ids < -1
 fs_text = z3.Function("fs_text", S, Int, S)            # contents of a readable file after n effects
 fs_readable = z3.Function("fs_readable", S, Int, B)     # open(p, "r") succeeds after n effects
 fs_writable = z3.Function("fs_writable", S, Int, B)     # open(p, "w") succeeds after n effects
@@ -51,8 +52,7 @@ class FileMethod:
 
 def trace_ref(ex, ctx, st):
     from .schema import cls_of
-    ctx.assume(FS_TRACE >= 0, "fs-model:trace-is-a-pre-existing-list", glob=True)
-    ctx.assume(cls_of(FS_TRACE) == ex.reg.classes["list"].tag, "fs-model:trace-is-a-pre-existing-list", glob=True)
+    ctx.assume(cls_of(FS_TRACE) == ex.reg.classes["list"].tag, "fs-model:trace-is-a-ghost-list", glob=True)
     ln = z3.Select(ex.heap_get(st, "$len"), FS_TRACE)
     ctx.assume(ln >= 0, "container-length-nonnegative")
     return mk_ref(FS_TRACE, "list")
